@@ -23,6 +23,9 @@ import (
 type Factory struct {
 	Name string
 	New  func(capacity int, inflightExpiry time.Duration, clientID string, def queue.Notifier) (queue.Store, func(), error)
+	// Reopen (durable back ends only) builds a new store object over what the back end holds for clientID - what a
+	// broker does for every stored session when it starts. The old object is abandoned, as in a crash.
+	Reopen func(capacity int, inflightExpiry time.Duration, clientID string, def queue.Notifier) (queue.Store, error)
 }
 
 // ExtraFactories: redis back end registers itself here.
@@ -68,7 +71,7 @@ func (n *recNotifier) take() []dropRec {
 // ---- operations -----------------------------------------------------------
 
 type qop struct {
-	Kind    string   // add | read | readinflight | remove | replace | init | close
+	Kind    string   // add | read | readinflight | remove | replace | init | close | reopen
 	Payload string   `json:",omitempty"`
 	QoS     byte     `json:",omitempty"`
 	Exp     int      `json:",omitempty"` // -1 expired an hour ago, 0 none, +1 in one hour
@@ -211,6 +214,9 @@ type runner struct {
 	n    *recNotifier
 	st   queue.Store
 	dead bool // model and implementation diverged beyond repair: stop this history
+	id       string
+	ie       time.Duration
+	reopened int
 	// packet identifiers whose in-flight entry the queue sacrificed: the client may still acknowledge them
 	sacrificed []uint16
 }
@@ -730,6 +736,19 @@ func (rn *runner) step(o qop) {
 			rn.viol("close.error", err.Error(), nil)
 		}
 		rn.m.closed = true
+	case "reopen":
+		// the process is gone; a new one builds its store object over what the back end holds and - like the
+		// broker for a session nobody has reconnected to yet - may Add before the first Init
+		n := &recNotifier{qsum: rn.n.qsum, isum: rn.n.isum}
+		st, err := rn.fac.Reopen(rn.m.cap, rn.ie, rn.id, n)
+		if err != nil {
+			rn.viol("reopen.error", err.Error(), nil)
+			rn.dead = true
+			return
+		}
+		rn.st, rn.n = st, n
+		rn.m.inited, rn.m.closed, rn.m.drained, rn.m.replayed = false, false, false, 0
+		rn.reopened++
 	}
 	if !rn.dead {
 		rn.checkCounters()
@@ -743,6 +762,7 @@ type genCfg struct {
 	seq   int
 	noBig bool     // no payloads >= 64 KiB (covered by a dedicated case for the redis back end)
 	stale []uint16 // packet identifiers that were in flight when the session was last wiped by a clean Init
+	canReopen bool
 }
 
 func (g *genCfg) nextID(m *model) uint16 {
@@ -810,15 +830,20 @@ func (g *genCfg) next(m *model, limitChoices []uint32) qop {
 		return qop{Kind: "init", Clean: clean, Version: []byte{4, 5}[rng.Intn(2)], Limit: limitChoices[rng.Intn(len(limitChoices))]}
 	}
 	if !m.inited {
+		if len(m.ents) > 0 && rng.Intn(5) < 3 {
+			return add() // a restored session that nobody has reconnected to yet keeps receiving messages
+		}
 		if rng.Intn(4) == 0 {
 			return add() // Add before the first Init (offline session loaded at start-up)
 		}
-		return initOp(rng.Intn(2) == 0)
+		return initOp(len(m.ents) == 0 && rng.Intn(2) == 0 || rng.Intn(6) == 0)
 	}
 	if m.closed {
 		switch x := rng.Intn(10); {
 		case x < 5:
 			return add()
+		case x < 6 && g.canReopen:
+			return qop{Kind: "reopen"}
 		default:
 			return initOp(rng.Intn(5) == 0)
 		}
@@ -863,8 +888,10 @@ func (g *genCfg) next(m *model, limitChoices []uint32) qop {
 			return qop{Kind: "replace", ID: infl[rng.Intn(len(infl))].ID}
 		}
 		return qop{Kind: "replace", ID: uint16(60001 + rng.Intn(100))}
-	case x < 97:
+	case x < 96:
 		return qop{Kind: "close"}
+	case g.canReopen:
+		return qop{Kind: "reopen"}
 	default:
 		return add()
 	}
@@ -872,11 +899,14 @@ func (g *genCfg) next(m *model, limitChoices []uint32) qop {
 
 // finalDrain proves that everything the model believes is stored is still there and nothing else.
 func (rn *runner) finalDrain(g *genCfg) {
-	if rn.dead || !rn.m.inited {
+	if rn.dead || (!rn.m.inited && rn.reopened == 0) {
 		return
 	}
-	if !rn.m.closed {
+	if rn.m.inited && !rn.m.closed {
 		rn.step(qop{Kind: "close"})
+	}
+	if rn.m.version == 0 {
+		rn.m.version = 5
 	}
 	rn.step(qop{Kind: "init", Clean: false, Version: rn.m.version, Limit: math.MaxUint32})
 	for i := 0; i < 1000 && !rn.dead && !rn.m.drained; i++ {
@@ -922,7 +952,7 @@ func (rn *runner) finalDrain(g *genCfg) {
 }
 
 func (rn *runner) runRandom(rng *rand.Rand, capacity, inflExp, nops int) {
-	g := &genCfg{rng: rng, noBig: rn.fac.Name != "mem"}
+	g := &genCfg{rng: rng, noBig: rn.fac.Name != "mem", canReopen: rn.fac.Reopen != nil}
 	limits := [][]uint32{{math.MaxUint32}, {math.MaxUint32, 120}, {120, 300}}[rng.Intn(3)]
 	for i := 0; i < nops && !rn.dead; i++ {
 		if len(rn.sacrificed) > 0 {
@@ -948,7 +978,7 @@ func newRunner(r *monitor.Run, fac Factory, capacity, inflExp int, id string) (*
 	if err != nil {
 		return nil, nil, err
 	}
-	rn := &runner{r: r, fac: fac, base: time.Now(), n: n, st: st,
+	rn := &runner{r: r, fac: fac, base: time.Now(), n: n, st: st, id: id, ie: ie,
 		m: &model{cap: capacity, inflExp: inflExp, ledger: map[string]string{}}}
 	return rn, cleanup, nil
 }
@@ -1000,6 +1030,7 @@ func Run(r *monitor.Run) {
 				}
 			}
 			r.Count("messages_dropped", int64(drops))
+			r.Count("reopened_stores_"+fac.Name, int64(rn.reopened))
 			if drops > 0 || full > capacity {
 				r.Nontrivial(fmt.Sprintf("%s|%d|%v", fac.Name, i, rn.hist))
 			}
